@@ -4,7 +4,8 @@
 D="$1"; NAME="$(basename "$D")"
 WT=/tmp/wt/confirm_$NAME
 git -C /repo worktree add -q --detach "$WT" HEAD || exit 2
-cleanup() { git -C /repo worktree remove --force "$WT" 2>/dev/null; }
+TMPDIR=/tmp/wt/tmp_$NAME; export TMPDIR; mkdir -p "$TMPDIR"     # the suite and the demos leave large temporary files behind
+cleanup() { git -C /repo worktree remove --force "$WT" 2>/dev/null; rm -rf "$TMPDIR"; }
 trap cleanup EXIT INT TERM
 cd "$WT"
 git apply "$D/patch.diff" || { echo "$NAME: patch does not apply"; exit 1; }
